@@ -41,7 +41,7 @@ func Scenarios(prop string) []gx.Sc {
 			{Name: "cons?n=4&cuts=5&fmts=6,5&codec=1&slow=1&buf=1&faults=" + faults + "&gates=" + gates + icpt, Q: 2, T: 3},
 			{Name: "cons?n=3&cuts=1&fmts=3&ver=0.10.2.0&slow=1&buf=0&fsz=60&faults=" + faults + "&gates=" + gates + icpt, Q: 2, T: 3},
 			{Name: "cons?n=2&cuts=1&fmts=5&np=2&slow=1&buf=0&faults=" + faults + ",out-of-range&gates=" + gates + icpt, Q: 2, T: 3},
-			{Name: "cons?n=3&cuts=3&fmts=5&nb=2&move=1&app=1&buf=4&faults=" + faults + "&gates=" + gates + icpt, Q: 2, T: 3},
+			{Name: "cons?n=3&cuts=3&fmts=5&nb=2&move=1&app=1&buf=4&bofunc=1&faults=" + faults + "&gates=" + gates + icpt, Q: 2, T: 3},
 			{Name: "cons?n=3&cuts=2&fmts=0&ver=0.8.2.0&slow=1&buf=0&fsz=40&faults=" + faults + "&gates=" + gates + icpt, Q: 2, T: 3},
 			// one batch per fetch: after the slow-reader path (two expiries while one message is blocked) further
 			// non-empty responses follow
